@@ -12,6 +12,17 @@ def fixed_param(rng, kind, p, percol=None):
         percol = p > 1 and rng.random() < 0.5
     k = p if percol else 1
     mean = rng.normal(0, 1.5, size=k).round(3)
+    if rng.random() < 0.12:
+        # integer-typed parameters (python ints / int64 arrays) are valid fixed parameters too
+        imean, ivar = rng.integers(-2, 3, size=k), rng.integers(1, 6, size=k)
+        im = int(imean[0]) if (k == 1 and rng.random() < 0.5) else ND(imean.astype(np.int64))
+        if kind == "L2Cost":
+            return im, imean.astype(float)
+        if kind == "GaussianVarCost":
+            iv = int(ivar[0]) if (k == 1 and rng.random() < 0.5) else ND(ivar.astype(np.int64))
+            return {"tuple": [im, iv]}, (imean.astype(float), ivar.astype(float))
+        d = rng.integers(1, 6, size=p)
+        return {"tuple": [im, ND(np.diag(d).astype(np.int64))]}, (imean.astype(float), np.diag(d).astype(float))
     if kind == "L2Cost":
         if k == 1 and rng.random() < 0.5:
             return float(mean[0]), float(mean[0])
